@@ -95,7 +95,71 @@ func isRepoFunc(fn *ssa.Function) bool {
 	return false
 }
 
+// callAsserts evaluates the `assert at call` clauses of the function under verification that name this callee.
+// In the clause $0 is the receiver (methods) and $1, $2, ... are the arguments.
+func (vc *VC) callAsserts(fx *FuncCtx, st *State, callee string, sig *types.Signature, args []Val) {
+	if fx == nil || fx.fc == nil || len(fx.fc.CallAsserts) == 0 || vc.dry > 0 {
+		return
+	}
+	var matched []*CallAssert
+	for _, ca := range fx.fc.CallAsserts {
+		if callee == ca.Callee || strings.HasSuffix(callee, "."+ca.Callee) {
+			matched = append(matched, ca)
+		}
+	}
+	if len(matched) == 0 {
+		return
+	}
+	vc.callSeq["$assert:"+callee]++
+	k := vc.callSeq["$assert:"+callee]
+	env := vc.specEnvFor(fx, st, nil)
+	for n, v := range vc.params {
+		if fx.top {
+			env.vars[n] = v
+		}
+	}
+	off := 1
+	if sig.Recv() != nil && len(args) > 0 {
+		env.vars["$0"] = &SV{V: args[0], T: sig.Recv().Type()}
+		off = 0
+	}
+	for i := 0; i < sig.Params().Len(); i++ {
+		idx := i + 1 - off
+		if sig.Recv() != nil {
+			idx = i + 1
+		}
+		if idx < len(args)+off {
+			ai := i
+			if sig.Recv() != nil {
+				ai = i + 1
+			}
+			if ai < len(args) {
+				env.vars[fmt.Sprintf("$%d", i+1)] = &SV{V: args[ai], T: sig.Params().At(i).Type()}
+			}
+		}
+	}
+	for _, ca := range matched {
+		if ca.K != 0 && ca.K != k {
+			continue
+		}
+		g, err := env.evalBool(ca.Clause.Expr)
+		name := fmt.Sprintf("call:%s#%d:%s", shortName(callee), k, ca.Clause.Label)
+		if err != nil {
+			vc.specError(st, name, ca.Clause, err)
+			continue
+		}
+		tags := ca.Clause.Tags
+		if len(tags) == 0 {
+			tags = tagsOf(fx.fc)
+		}
+		vc.oblige(st, name, "call-assert", g, tags, ca.Clause.Src)
+	}
+}
+
 func (vc *VC) callFunction(fx *FuncCtx, st *State, fn *ssa.Function, args []Val, bound []Val, rt types.Type, instr ssa.Instruction) Val {
+	if fx != nil && fx.top && fn.Synthetic == "" {
+		vc.callAsserts(fx, st, funcDisplayName(fn), fn.Signature, args)
+	}
 	// synthetic wrappers (bound methods, pointer-receiver wrappers) are executed: they are tiny
 	if fc := vc.prog.ContractForFunc(fn); fc != nil && (fn.Synthetic == "" || len(fn.Blocks) == 0) && !fc.Flags["inline"] {
 		if fn != vc.fn || len(vc.inlineStk) > 0 || true {
@@ -368,7 +432,11 @@ func (vc *VC) writeSetOf(fn *ssa.Function) []string {
 	if !ok || ws.all {
 		return nil
 	}
-	return ws.list()
+	l := ws.list()
+	if l == nil {
+		l = []string{}
+	}
+	return l
 }
 
 // ---------- interface method calls ----------
@@ -376,6 +444,9 @@ func (vc *VC) writeSetOf(fn *ssa.Function) []string {
 func (vc *VC) callInvoke(fx *FuncCtx, st *State, c *ssa.CallCommon, recv Val, args []Val, rt types.Type, instr ssa.Instruction) Val {
 	m := c.Method
 	full := append([]Val{recv}, args...)
+	if fx != nil && fx.top {
+		vc.callAsserts(fx, st, recvQual(m)+"."+m.Name(), m.Type().(*types.Signature), full)
+	}
 	if fc := vc.prog.ContractForMethod(m); fc != nil {
 		iv := st.toIface(recv)
 		vc.check(fx, st, Not(Eq(iv.Tag, IntC(0))), "method call on nil interface", posOf(instr))
